@@ -797,7 +797,7 @@ func (x *Exec) assertTo(st *State, v Term, to types.Type) (Term, Term) {
 	ok := eq(mk(SInt, "dyn", v), x.tagOf(to))
 	val := x.unbox(v, to)
 	// an interface value of dynamic type T is the boxing of its T value
-	if x.contract != nil && x.contract.Safety["type-assert-may-panic"] {
+	if x.contract != nil && (x.contract.Safety["type-assert-may-panic"] || x.contract.Safety["box-inverse"]) {
 		// (stated only where contracts compare boxed values with configured interface values: the generated
 		// testify methods; elsewhere the extra equation only slows the solvers down)
 		st.assume(implies(ok, eq(x.ctx.App("box_"+mangle(typeTagString(to)), SInt, val), v)))
